@@ -76,7 +76,7 @@ var specs = map[string]*checkSpec{
 		StateDef: "distinct (mode, number of plug-in calls) pairs",
 		Assume:   []string{"'already carries symbols' is read as the HasFunctions flag (the weakest reading both code paths honour)", "single faults are enumerated exhaustively per generated profile; multi-fault plans and profiles are sampled"}},
 	"C20": {Prop: "C20", Engine: "c20", Pkg: "internal/driver", Race: true, Level: "exploration", QuickS: 45, ThorS: 1200,
-		Rule:     "built with -race; the scheduler's baton hand-offs are invisible to the race detector (runtime.RaceDisable around the hand-off, //go:norace scheduler and simulated kernel), so the detector sees exactly the synchronisation pprof performs itself while the interleaving is dictated by the tape (random walk at sync, I/O and function-entry points, or PCT). Scenarios: 2-4 tasks Write/WriteUncompressed/Copy one shared profile (bytes must equal the sequential serialization); option get/set by writers and readers (no torn config, register linearizability by exact search); 2-6 tasks creating temp files with equal prefixes against a pre-populated directory (distinct names, nothing clobbered, registry cleaned exactly once); 2-4 concurrent web clients incl. /download and first use of the HTML templates (responses equal the solo responses on a fresh session); 2-3 clients issuing /saveconfig and /deleteconfig concurrently, optionally killed at a seeded I/O call (linearizability, acknowledged requests survive); concurrent multi-source fetch with faults (C16 oracles plus byte equality with the one-at-a-time schedule); 2-4 tasks calling SourceLine/ObjAddr on one shared binutils ObjFile backed by scripted addr2line or llvm-symbolizer line protocols on simulated pipes while another task toggles fast symbolization (each answer must equal the sequential answer for its own address), followed by concurrent SetTools and SetFastSymbolization (both must have taken effect). Any race report, deadlock or step-limit hang is a violation. A case is distinct by (scenario, operations, context-switch signature) and non-trivial if at least one context switch happened between the concurrent operations",
+		Rule:     "built with -race; the scheduler's baton hand-offs are invisible to the race detector (runtime.RaceDisable around the hand-off, //go:norace scheduler and simulated kernel), so the detector sees exactly the synchronisation pprof performs itself while the interleaving is dictated by the tape (random walk at sync, I/O and function-entry points, or PCT). Scenarios: 2-4 tasks Write/WriteUncompressed/Copy one shared profile (bytes must equal the sequential serialization); option get/set by writers and readers (no torn config, register linearizability by exact search); 2-6 tasks creating temp files with equal prefixes against a pre-populated directory (distinct names, nothing clobbered, registry cleaned exactly once); 2-4 concurrent web clients incl. /download and first use of the HTML templates (responses equal the solo responses on a fresh session); 2-3 clients issuing /saveconfig and /deleteconfig concurrently, optionally killed at a seeded I/O call (linearizability, acknowledged requests survive); concurrent multi-source fetch with faults (C16 oracles plus byte equality with the one-at-a-time schedule); 2-4 tasks calling SourceLine/ObjAddr on one shared binutils ObjFile backed by scripted addr2line or llvm-symbolizer line protocols on simulated pipes while another task toggles fast symbolization (each answer must equal the sequential answer for its own address), followed by concurrent SetTools and SetFastSymbolization (both must have taken effect); and, for two-task instances of the temp-file, options and tools scenarios, systematic enumeration of every schedule with at most one (quick) / two (thorough) preemptive switches at sync and I/O points. Any race report, deadlock or step-limit hang is a violation. A case is distinct by (scenario, operations, context-switch signature) and non-trivial if at least one context switch happened between the concurrent operations",
 		StateDef: "distinct sets of temp-file names handed out (temp-file scenario)",
 		Assume:   []string{"the race detector reports a racy pair of accesses only if both occur in the run (they need not collide); torn multi-word reads between two instructions of one statement are left to it", "the tool access scenario reaches binutils through the addr2line-path-contains-testdata escape hatch of Binutils.Open (no ELF file is parsed); fileNM is not exercised"}},
 	"C16": {Prop: "C16", Engine: "c16", Pkg: "internal/driver", Level: "exploration", QuickS: 45, ThorS: 1200,
